@@ -252,7 +252,7 @@ struct Run {
     }
     return out;
   }
-  bool nodeIsStructure(const std::string& node) const { return nodeAttr(node, "is-directory-structure") == "true"; }
+  bool nodeIsStructure(const std::string& node) const { return nodeAttr(node, "is-directory-structure") == "true" || nodeAttr(node, "type") == "directory-structure"; }
   // a virtual node that carries "when its producer last ran": consumers re-run whenever the producer has run
   bool isTimestampNode(const std::string& node) const { return nodeAttr(node, "is-command-timestamp") == "true"; }
   std::map<std::string, int> lastOkRun;   // command -> build of its last successful execution
@@ -302,7 +302,7 @@ struct Run {
     h.u64(c.definitionHash());
     for (auto& i : c.inputs)
       if (isDirNode(i)) {
-        h.str(nodeAttr(i, "is-directory-structure"));
+        h.str(nodeIsStructure(i) ? "true" : "");
       }
     return h.get();
   }
@@ -1896,6 +1896,7 @@ struct Gen {
   // ---- C12: a source tree consumed through a directory-tree / directory-structure node
   std::set<std::string> treeFiles, treeDirs, extFiles;
   std::string treeLink;   // the symbolic link inside the tree that names ext/, once made
+  bool treeTypeAttr = false;
   std::map<std::string, std::vector<std::string>> pastContents;
   int linkCommands = 0, mkdirCommands = 0;
   std::vector<std::string> maybes;   // inputs of allow-missing-inputs commands that come and go
@@ -1940,7 +1941,10 @@ struct Gen {
     t.inputs.erase(std::unique(t.inputs.begin(), t.inputs.end()), t.inputs.end());
     t.outputs = {"tout0"};
     desc.cmds.push_back(t);
-    if (rng.chance(350)) desc.nodeAttrs["tree/"].push_back({"is-directory-structure", "true"});
+    // the node's kind, spelled the old way (is-directory-structure; a trailing slash alone means a tree) or with `type`
+    treeTypeAttr = rng.chance(350);
+    if (treeTypeAttr) desc.nodeAttrs["tree/"].push_back({"type", rng.chance(350) ? "directory-structure" : "directory"});
+    else if (rng.chance(350)) desc.nodeAttrs["tree/"].push_back({"is-directory-structure", "true"});
     if (rng.chance(400)) desc.nodeAttrs["tree/"].push_back({"content-exclusion-patterns", rng.chance(500) ? "[\"*.tmp\", \"skip*\"]" : "[\"*.tmp\"]"});
     desc.targets[""].push_back("tout0");
   }
@@ -2259,9 +2263,15 @@ struct Gen {
           auto& attrs = desc.nodeAttrs["tree/"];
           if (rng.chance(500)) {
             bool had = false;
-            for (auto it = attrs.begin(); it != attrs.end(); ++it)
-              if (it->first == "is-directory-structure") { attrs.erase(it); had = true; break; }
-            if (!had) attrs.push_back({"is-directory-structure", "true"});
+            if (treeTypeAttr) {
+              for (auto& kv : attrs)
+                if (kv.first == "type") { kv.second = kv.second == "directory" ? "directory-structure" : "directory"; had = true; }
+              if (!had) attrs.push_back({"type", "directory-structure"});
+            } else {
+              for (auto it = attrs.begin(); it != attrs.end(); ++it)
+                if (it->first == "is-directory-structure") { attrs.erase(it); had = true; break; }
+              if (!had) attrs.push_back({"is-directory-structure", "true"});
+            }
           } else {
             bool had = false;
             for (auto it = attrs.begin(); it != attrs.end(); ++it)
